@@ -180,6 +180,13 @@ func c07RunAdmit(co *caseOut, in c07AdmitIn) {
 		return
 	}
 
+	// A transaction that is put on chain first (respect onchain) has to be valid when its block is made at the
+	// current height: ValidUntilBlock <= height + the GOVERNED increment. With an increment of 1 that is the height of
+	// its own block, so at the later submission it has necessarily expired as well: the case is onchain+expired then
+	// (the facts for the model are read from the transaction itself, so the expectation follows).
+	if has["onchain"] && maxInc < 2 {
+		has["expired"] = true
+	}
 	spec := c07TxSpec{signers: []*c07Acct{sender}, script: c07PushOne, sysfee: 100_0000}
 	// how many blocks will still be added before the submission
 	pending := uint32(0)
